@@ -54,7 +54,7 @@ CHECKS = {
    note="Trusted: budgets linear in the image size calibrated two orders of magnitude above the pristine corpus; go/ast instrumentation (text splice) preserves semantics; stdlib zlib/gzip time is covered only by the wall-clock backstop.",
    technique="deterministic simulation: faulty simulated disk behind the Resource interface; seeded, systematic, structure-aware adversarial and coverage-guided fault plans; tick/allocation budgets in an instrumented build"),
  "C17": dict(engine="schedsim", category="exploration", design_ref="DESIGN.md §4.5",
-   text="Seeded cooperative scheduler over an instrumented copy of the library built with -race: tasks are real goroutines sharing parsed *font.Font values, exactly one runs at a time, hand-off happens at go/ast-inserted yield points through a baton the race detector cannot see (no happens-before edge), so the interleaving is decided by the seed and replays exactly while the detector treats the tasks as concurrent. Sweep plans park one task at strided points (within the calibrated race-detector history window) while the others run; random plans switch at seeded ticks. Oracles: zero race reports, per-task results equal the solo run, no fatal error. A canary (shared *font.Face) and a window calibration run on every invocation.",
+   text="Seeded cooperative scheduler over an instrumented copy of the library built with -race: tasks are real goroutines sharing parsed *font.Font values, exactly one runs at a time, hand-off happens at go/ast-inserted yield points through a baton the race detector cannot see (no happens-before edge), so the interleaving is decided by the seed and replays exactly while the detector treats the tasks as concurrent. Sweep plans park one task at strided points (within the calibrated race-detector history window) while the others run; random plans switch at seeded ticks. Oracles: zero race reports, per-task results equal the solo run, no fatal error. A canary (shared *font.Face) and a window calibration run on every invocation. A quarter of the simulations install corpus fonts as system fonts in a scratch directory: per-task font maps then call UseSystemFonts (the process-global index behind the library's only sync.Once; switching is suspended for that call and most such plans switch away right after it) and load faces lazily. So that lazily initialised package-level state is met unfilled, cases are generated in a sub-process, non-sweep plans run the concurrent phase before the solo reference runs, and every chunk of four runs gets a fresh worker process.",
    note="Trusted: the Go race detector's happens-before model (hardware memory-model effects are not executed); GOMAXPROCS=1 + asyncpreemptoff=1 keep the physical schedule under the simulator's control; incidental synchronisation inside the library (fmt, sync.Once) creates real edges as in production.",
    technique="deterministic simulation: seeded cooperative scheduler with race-detector-invisible baton over go/ast-instrumented code, sweep + PCT-style plans, solo-run refinement"),
  "C06": dict(engine="segreuse", category="exploration", design_ref="DESIGN.md §4.6",
